@@ -1,6 +1,7 @@
 (* C12 - the framework store is a faithful set model under any update history.
    Statements only; every proof is [exact] of a lemma of Proofs/StoreProofs.v. *)
 From Crusta Require Import Model.Store Proofs.StoreProofs.
+From Crusta Require Proofs.Clauses2.
 From Coq Require Import Permutation.
 
 Section C12.
@@ -72,6 +73,42 @@ Theorem C12_ids_stable : forall f o, reachable f ->
   (forall id l, In (id, l) (live s) -> In (id, l) (live s') \/ o = OpRemArg l).
 Proof. exact (StoreProofs.ids_stable L leqb leqb_spec). Qed.
 
+(* ---- the remaining clauses of the property text, one theorem each (Proofs/Clauses2.v) *)
+(* (7) "removing an argument removes exactly its incident attacks": the call reports Ok, the live
+   arguments lose exactly this one, and the attacks lose exactly those with this end point *)
+Theorem C12_remove_argument_removes_incident_attacks : forall f l id, reachable f ->
+  get_argument L leqb f l = Some id ->
+  snd (step f (OpRemArg l)) = ROk /\
+  iter_args L (fst (step f (OpRemArg l))) = filter (fun p => negb (Nat.eqb (fst p) id)) (iter_args L f) /\
+  iter_attacks L (fst (step f (OpRemArg l))) =
+    filter (fun p => negb (Nat.eqb (fst p) id) && negb (Nat.eqb (snd p) id)) (iter_attacks L f).
+Proof. exact (Clauses2.remove_argument_incident L leqb leqb_spec). Qed.
+
+(* (8) "inserting an existing argument or attack changes nothing": Ok, and the store is EQUAL *)
+Theorem C12_insert_existing_changes_nothing : forall f, reachable f ->
+  (forall l id, get_argument L leqb f l = Some id -> step f (OpNewArg l) = (f, ROk)) /\
+  (forall a b x y, get_argument L leqb f a = Some x -> get_argument L leqb f b = Some y ->
+                   In (x, y) (iter_attacks L f) -> step f (OpNewAtt a b) = (f, ROk)).
+Proof. exact (Clauses2.insert_existing_noop L leqb leqb_spec). Qed.
+
+(* (9) "ids are never reused", over whole histories: an id below the id counter of f that names a live
+   argument after ANY further update sequence os named the same argument (same label) in f already -
+   so neither the id of a removed argument nor any other id handed out before is ever given again *)
+Theorem C12_ids_never_reused : forall os f, reachable f ->
+  forall id l, In (id, l) (iter_args L (run_ops f os)) -> id < next_id (abs f) -> In (id, l) (iter_args L f).
+Proof. exact (Clauses2.ids_never_reused L leqb leqb_spec). Qed.
+
+(* (10) "an update on an unknown argument or attack returns an error and leaves the framework unchanged":
+   removing an unknown argument; adding or removing an attack with an unknown end point; removing an
+   attack that is not there *)
+Theorem C12_unknown_is_error_and_unchanged : forall f, reachable f ->
+  (forall l, get_argument L leqb f l = None -> step f (OpRemArg l) = (f, RErr)) /\
+  (forall a b, get_argument L leqb f a = None \/ get_argument L leqb f b = None ->
+               step f (OpNewAtt a b) = (f, RErr) /\ step f (OpRemAtt a b) = (f, RErr)) /\
+  (forall a b x y, get_argument L leqb f a = Some x -> get_argument L leqb f b = Some y ->
+                   ~ In (x, y) (iter_attacks L f) -> step f (OpRemAtt a b) = (f, RErr)).
+Proof. exact (Clauses2.unknown_rejected L leqb leqb_spec). Qed.
+
 End C12.
 
 Print Assumptions C12_step_refines.
@@ -80,3 +117,7 @@ Print Assumptions C12_history_refines.
 Print Assumptions C12_observations.
 Print Assumptions C12_spec_wellformed.
 Print Assumptions C12_ids_stable.
+Print Assumptions C12_remove_argument_removes_incident_attacks.
+Print Assumptions C12_insert_existing_changes_nothing.
+Print Assumptions C12_ids_never_reused.
+Print Assumptions C12_unknown_is_error_and_unchanged.
